@@ -43,6 +43,10 @@ let parse_gv s = match String.split_on_char '.' s with
   | [b; n] when b <> "?" -> Some { gv_block = nat_of_hex b; gv_num = n_of_hex n }
   | _ -> None
 
+(* the last deterministic selection query of the case (environment, mirror state, op, Go answer):
+   what the vm_compute cross-check re-evaluates inside Coq *)
+let last_query : (env * vstate * char * string) option ref = ref None
+
 let check inp obs =
   match split_ws inp with
   | ["g"; ps; nv; self; head; best; nc; ops] ->
@@ -106,7 +110,8 @@ let check inp obs =
           let r = if capped then determine_precommit repaired e !st else prevoted_block e !st in
           let det = not (hash_conflict !st Prevote) && no_tie (prevote_candidates e !st) in
           if det then begin
-            if out_str r <> ob then fail_eq (Printf.sprintf "op %d (%s): go=%s model=%s" i op ob (out_str r))
+            if out_str r <> ob then fail_eq (Printf.sprintf "op %d (%s): go=%s model=%s" i op ob (out_str r));
+            last_query := Some (e, !st, op.[0], ob)
           end else tag "order-dependent";
           (* property *)
           let clean = stored_ok e !st && spec_tolerant e !st Prevote in
@@ -125,6 +130,13 @@ let check inp obs =
                   fail_prop "-" (Printf.sprintf "op %d (%s): answer %s although block %s has a supermajority" i op ob (hex_of_nat g)))
            | Some _ -> tag "unclean-or-intolerant"
            | None -> tag "no-prevote-supermajority")
+        | 'V' ->
+          (* determinePreVote: deterministic (no map iteration); the round is 5 in the harness *)
+          let r = determine_prevote e !st (nat_of_int (5 mod (int_of_nat e.e_voters))) in
+          if out_str r <> ob then fail_eq (Printf.sprintf "op %d (V): go=%s model=%s" i ob (out_str r));
+          last_query := Some (e, !st, 'V', ob);
+          (match lookup (nat_of_int (5 mod (int_of_nat e.e_voters))) !st.s_pv with
+           | Some _ -> tag "prevote-from-primary" | None -> tag "prevote-best-block")
         | 'B' ->
           let r = best_final_candidate e !st in
           let det = not (hash_conflict !st Prevote) && no_tie (prevote_candidates e !st)
@@ -172,4 +184,32 @@ let check inp obs =
     end
   | _ -> fail "C21: bad input %s" inp
 
-let () = run_driver check
+(* vm_compute cross-check of the extraction: the last deterministic G / P / V query of the case,
+   recomputed inside Coq from the mirror state (which the replay has just shown equal to the Go
+   state dump) and compared with the Go answer *)
+let coq inp obs =
+  last_query := None;
+  let v = (try Some (check inp obs) with _ -> None) in
+  match v, !last_query with
+  | Some v, Some (e, st, q, ob) when v.model_eq ->
+    let nat x = string_of_int (int_of_nat x) in
+    let nl l = "[" ^ String.concat "; " (List.map nat l) ^ "]%nat" in
+    let gv g = Printf.sprintf "(mkGV %s %s)" (nat g.gv_block) (coq_n g.gv_num) in
+    let votes l = "[" ^ String.concat "; " (List.map (fun (a, g) -> Printf.sprintf "(%s%%nat, %s)" (nat a) (gv g)) l) ^ "]" in
+    let eqv l = "[" ^ String.concat "; " (List.map (fun (a, k) -> Printf.sprintf "(%s, %s)%%nat" (nat a) (nat k)) l) ^ "]" in
+    let et = Printf.sprintf "(mkEnv %s %s %s %s %s)" (nl e.e_tree) (nat e.e_voters) (nat e.e_best)
+        (match e.e_next_change with None -> "None" | Some n -> "(Some " ^ coq_n n ^ ")") (nat e.e_self) in
+    let stt = Printf.sprintf "(mkSt %s %s %s %s %s)" (votes st.s_pv) (votes st.s_pc) (eqv st.s_pv_eq) (eqv st.s_pc_eq) (nat st.s_head) in
+    let call = (match q with
+      | 'G' -> "prevoted_block e st"
+      | 'P' -> "determine_precommit true e st"
+      | _ -> Printf.sprintf "determine_prevote e st (%d mod e_voters e)" 5) in
+    let expect = (match parse_gv ob with
+      | Some g -> Printf.sprintf "Ok g => (gv_block g =? %s)%%nat && (gv_num g =? %s)%%N | _ => false" (nat g.gv_block) (coq_n g.gv_num)
+      | None ->
+        let c = (try int_of_string ("0x" ^ String.sub ob 1 (String.length ob - 1)) with _ -> 9999) in
+        Printf.sprintf "Err c => (c =? %d)%%nat | _ => false" c) in
+    Some (Printf.sprintf "let e := %s in let st := %s in match %s with %s end" et stt call expect)
+  | _ -> None
+
+let () = run_driver ~coq check
